@@ -368,7 +368,7 @@ pub fn check_root(root: &Root, classes: &[Class], depth: u8, h: &ZobristHasher, 
 
 pub fn run(tier: Tier, seed: u64) -> i32 {
     let mut run = Run::new("C11", tier, seed, "exploration");
-    run.rule = "evaluation = one real search (virtual clock, all iterations up to the limit complete) on a root near mate or stalemate, judged by the oracle's full-width mate solver: (1) mate-in-1 roots: the move standing after every completed iteration mates; (2) roots where some but not all moves allow a mate in one: the move standing after iterations 2 and 3 is not one of them; (3) every line `mate N`, 0<N<=3, requires a forced mate in <= N; `mate -N` on the last line of a completed depth requires mated-in-N; (4) a line reporting on a move that stalemates the opponent must not carry a mate score. Roots: sampled endgame families (KQK, KRK, KRRK, KBBK, KBNK, KQKR, pawn endings, ...) biased to edge/corner kings, sparse material with a cornered king hemmed in by its own men (minor piece against minor piece, pawn or rook: smothered and corner mates), positions 1-5 plies before a checkmate in oracle-driven games with full material, the library's mate/stalemate entries. Non-trivial = root classified mate-in-1 / avoidable mate / mated soon / stalemate trap; distinct by (root FEN, depth limit)".into();
+    run.rule = "evaluation = one real search (virtual clock, all iterations up to the limit complete) on a root near mate or stalemate, judged by the oracle's full-width mate solver: (1) mate-in-1 roots: the move standing after every completed iteration mates; (2) roots where some but not all moves allow a mate in one: the move standing after iterations 2 and 3 is not one of them; (3) every line `mate N`, 0<N<=3, requires a forced mate in <= N; `mate -N` on the last line of a completed depth requires mated-in-N; (4) a line reporting on a move that stalemates the opponent must not carry a mate score. Roots: sampled endgame families (KQK, KRK, KRRK, KBBK, KBNK, KQKR, pawn endings, ...) biased to edge/corner kings, sparse material with a cornered king hemmed in by its own men (minor piece against minor piece, pawn or rook: smothered and corner mates), positions 1-5 plies before a checkmate in oracle-driven games with full material, the library's mate/stalemate entries. Black box: the same two clauses for the move PLAYED by the real binary under slices of 1-20 ms - a violation needs an info line of depth >= 2 (>= 3) whose own time field lies below the plan, i.e. the first (second) iteration had finished before the allowance ended. Non-trivial = root classified mate-in-1 / avoidable mate / mated soon / stalemate trap; distinct by (root FEN, depth limit)".into();
     run.assumptions = vec![
         "negative mate claims are judged only on the last line of a completed depth (intermediate lines describe the first move tried, not the position)".into(),
         "claims with |N| > 3 or beyond the solver's node budget are counted as unchecked, not decided".into(),
@@ -436,6 +436,41 @@ pub fn run(tier: Tier, seed: u64) -> i32 {
     });
     for a in results {
         run.acc.merge(a, &[]);
+    }
+    // the move played by the real binary under short slices
+    {
+        let mut rng = Rng::stream(seed, 0xC11_BB);
+        let mut bb_roots: Vec<(Pos, bool, Vec<Mv>)> = Vec::new();
+        for fen in ["k7/8/1K6/8/8/8/8/7R w - -", "6k1/5ppp/8/8/8/8/5PPP/3R2K1 w - -", "7k/8/4K3/8/8/8/8/6Q1 w - -", "r1bqkb1r/pppp1ppp/2n2n2/4p2Q/2B1P3/8/PPPP1PPP/RNB1K1NR w KQkq -"] {
+            let p = Pos::parse_fen(fen).unwrap();
+            // the oracle decides, not the list
+            if Solver::new(200_000).mate_in(&p, 1) == Some(true) {
+                bb_roots.push((p, true, vec![]));
+            }
+        }
+        let mut tries = 0;
+        while bb_roots.len() < tier.pick(60, 400) && tries < 200_000 {
+            tries += 1;
+            let (w, b) = MATERIALS[rng.below(MATERIALS.len() as u64) as usize];
+            let stm = if rng.chance(1, 2) { Color::White } else { Color::Black };
+            let cand = if tries % 7 == 0 { near_mate_from_walks(&mut rng, &starts, 1, 2).pop() } else { material_position(&mut rng, w, b, stm) };
+            if let Some(p) = cand {
+                let legal = legal_moves(&p);
+                if legal.len() < 2 {
+                    continue;
+                }
+                let mut s = Solver::new(200_000);
+                if s.mate_in(&p, 1) == Some(true) {
+                    bb_roots.push((p, true, vec![]));
+                } else {
+                    let losing: Vec<Mv> = legal.iter().copied().filter(|m| s.mate_in(&apply(&p, *m), 1) == Some(true)).collect();
+                    if !losing.is_empty() && losing.len() < legal.len() && bb_roots.iter().filter(|r| !r.1).count() < bb_roots.len() / 2 + 4 {
+                        bb_roots.push((p, false, losing));
+                    }
+                }
+            }
+        }
+        super::timed::c11_blackbox(&mut run, &bb_roots);
     }
     run.floor_distinct = 200;
     run.finish()
